@@ -345,7 +345,7 @@ impl Noise {
 }
 
 fn noise_len() -> BoxedStrategy<u16> {
-    prop_oneof![4 => 0u16..=24, 2 => 24u16..=300, 1 => Just(65535u16), 1 => 300u16..=9000].boxed()
+    prop_oneof![8 => 0u16..=24, 4 => 24u16..=300, 2 => Just(65535u16), 1 => 65281u16..=65535, 2 => 300u16..=9000].boxed()
 }
 
 pub fn gv_item(max_pair: u32) -> BoxedStrategy<GvItem> {
@@ -354,7 +354,13 @@ pub fn gv_item(max_pair: u32) -> BoxedStrategy<GvItem> {
         1 => (0u8..3, gen::small_blob(max_pair.saturating_sub(15))).prop_map(|(k, v)| GvItem::KnownWithValue(k, v)),
         3 => ("[a-z_]{0,10}", prop_oneof![3 => Just(Blob::lit(b"")), 1 => gen::small_blob(max_pair.saturating_sub(10))])
             .prop_map(|(n, v)| GvItem::Other(Blob::lit(n.as_bytes()), v)),
-        1 => prop_oneof![Just(vec![0xffu8, 0xfe]), Just(vec![b'F', b'C', 0xc3]), Just(b"FCGI_MAX_CONN".to_vec()), Just(b"fcgi_max_conns".to_vec()), Just(b"FCGI_MAX_CONNSS".to_vec())]
+        2 => prop_oneof![
+                Just(vec![0xffu8, 0xfe]), Just(vec![b'F', b'C', 0xc3]), Just(b"FCGI_MAX_CONN".to_vec()), Just(b"fcgi_max_conns".to_vec()), Just(b"FCGI_MAX_CONNSS".to_vec()),
+                // look-alikes a lenient flag parser might accept
+                Just(b" FCGI_MAX_CONNS".to_vec()), Just(b"FCGI_MAX_REQS ".to_vec()), Just(b"\tFCGI_MPXS_CONNS".to_vec()), Just(b"FCGI_MAX_CONNS\n".to_vec()),
+                Just(b"FCGI_MAX_CONNS|FCGI_MAX_REQS".to_vec()), Just(b"FCGI_MAX_CONNS | FCGI_MPXS_CONNS".to_vec()), Just(b"0x7".to_vec()), Just(b"0x1".to_vec()), Just(b"7".to_vec()), Just(b"0b111".to_vec()),
+                Just(b"FCGI_MAX_CONNS,FCGI_MAX_REQS".to_vec()), Just(b"Fcgi_Max_Conns".to_vec()), Just(b"FCGI_MAX_CONNS\0".to_vec()),
+            ]
             .prop_map(|n| GvItem::Other(Blob::lit(&n), Blob::lit(b""))),
     ]
     .prop_map(move |it| {
@@ -384,7 +390,7 @@ pub fn id_delta() -> BoxedStrategy<u16> {
 
 /// `max_pair`: largest name+value the configured buffer is documented to handle.
 pub fn noise(max_pair: u32) -> BoxedStrategy<Noise> {
-    let pad = prop_oneof![3 => Just(0u8), 2 => 0u8..=9, 1 => any::<u8>()];
+    let pad = prop_oneof![3 => Just(0u8), 2 => 0u8..=9, 1 => any::<u8>(), 1 => Just(255u8)];
     prop_oneof![
         5 => (proptest::collection::vec(gv_item(max_pair), 0..6), prop_oneof![4 => Just(0u8), 1 => 1u8..6], pad.clone())
             .prop_map(|(items, trunc, pad)| Noise::GetValues { items, trunc, pad }),
@@ -514,8 +520,31 @@ pub fn stream_len() -> BoxedStrategy<u16> {
 }
 
 pub fn stream_spec(ty: u8, terminated: BoxedStrategy<bool>) -> BoxedStrategy<StreamSpec> {
-    (any::<u32>(), prop_oneof![1 => proptest::collection::vec(stream_len(), 0..2), 4 => proptest::collection::vec(stream_len(), 2..7)], pads(), terminated, prop_oneof![3 => Just(0u8), 1 => any::<u8>()])
-        .prop_map(move |(seed, lens, pads, terminated, end_pad)| StreamSpec { ty, seed, lens, pads, terminated, end_pad })
+    (
+        any::<u32>(),
+        prop_oneof![1 => proptest::collection::vec(stream_len(), 0..2), 4 => proptest::collection::vec(stream_len(), 2..7)],
+        pads(),
+        terminated,
+        prop_oneof![3 => Just(0u8), 1 => any::<u8>()],
+        // "jumbo" variant: a record at the 16-bit limit whose padding pushes content+padding past
+        // 65535 (what `set_lengths(65535)` itself produces), placed among ordinary records
+        prop::option::weighted(0.08, (prop_oneof![3 => Just(65535u16), 1 => 65281u16..=65535], prop_oneof![2 => Just(1u8), 1 => Just(7u8), 1 => Just(255u8), 1 => 1u8..=255], any::<u16>())),
+    )
+        .prop_map(move |(seed, mut lens, mut pads, terminated, end_pad, jumbo)| {
+            if let Some((len, pad, at)) = jumbo {
+                let k = idx(at, lens.len() + 1);
+                lens.insert(k, len);
+                if pads.is_empty() {
+                    pads = vec![0; lens.len()];
+                }
+                while pads.len() < lens.len() {
+                    let l = pads.len();
+                    pads.push(pads[l % pads.len().max(1)]);
+                }
+                pads[k] = pad;
+            }
+            StreamSpec { ty, seed, lens, pads, terminated, end_pad }
+        })
         .boxed()
 }
 
